@@ -354,17 +354,28 @@ def _replay_once(item):
     return rec
 
 
+OLD_HANDWRITTEN = '===OLD===\nFLOW::A -> B -> C\nWORDS::several bare words\nT::"""triple"""\nTENSION::X vs Y\n===END===\n'
+
+
 def surfaced(text, receipts):
     """Do octave_validate.repairs and octave_write.corrections surface the reader's receipts? (C07)"""
     st = _tools()
     want = sorted((r["kind"], r["line"], r["col"]) for r in receipts if r["kind"] in ("norm", "tq", "mw"))
     out = []
-    r = run_async(st["v"].execute(content=text, schema="NONE_SUCH"))
-    got = sorted((x["kind"], x["line"], x["col"]) for x in receipts_of(r.get("repairs", [])) if x["kind"] in ("norm", "tq", "mw"))
-    ok = r.get("status") != "success" or got == want
-    out.append({"route": "validate.repairs", "ok": ok, "why": "-" if ok else "other"})
-    for mode, kw in (("write.corrections_only.lenient", {"lenient": True}), ("write.corrections_only.strict", {})):
+    for prof in ("STANDARD", "STRICT", "LENIENT", "ULTRA"):
+        r = run_async(st["v"].execute(content=text, schema="NONE_SUCH", profile=prof))
+        got = sorted((x["kind"], x["line"], x["col"]) for x in receipts_of(r.get("repairs", [])) if x["kind"] in ("norm", "tq", "mw"))
+        ok = r.get("status") != "success" or got == want
+        out.append({"route": "validate.repairs" + ("" if prof == "STANDARD" else "." + prof), "ok": ok, "why": "-" if ok else "other"})
+    for mode, kw in (("write.corrections_only.lenient", {"lenient": True}), ("write.corrections_only.strict", {}),
+                     ("write.corrections_only.lenient.over_old_file", {"lenient": True}), ("write.corrections_only.strict.over_old_file", {})):
         p = os.path.join(st["dir"], "s%d.oct.md" % os.getpid())
+        if mode.endswith("over_old_file"):
+            # the target already holds somebody's hand-written text with rewrite sites of its own: they are not receipts of THIS input
+            with open(p, "w", encoding="utf-8", newline="") as f:
+                f.write(OLD_HANDWRITTEN)
+        elif os.path.exists(p):
+            os.unlink(p)
         r = run_async(st["w"].execute(target_path=p, content=text, corrections_only=True, **kw))
         if r.get("status") != "success":
             out.append({"route": mode, "ok": True, "why": "-"})
